@@ -74,16 +74,13 @@ def selftests(events, rng):
         c["M"]["F"].append([n + 1, w])
         c["sigma"] = c["sigma"] + ["zz"]
         out.append(c)
-    cands = [e for e in events if "exc" not in e and e["op"] == "tobytes" and e["bytes"]]
+    # the automaton visibly accepts the empty string (an initial state that is final): an empty result is wrong
+    cands = [e for e in events if "exc" not in e and e["op"] == "tobytes"
+             and {q for q, _ in e["M"]["I"]} & {q for q, _ in e["M"]["F"]}]
     for e in cands[:6]:
         c = copy.deepcopy(e)
         c["expect"] = "reject"
-        n = c["out"]["n"]
-        w = c["M"]["I"][0][1]
-        c["out"]["n"] = n + 2                     # the byte automaton accepts a lone first byte
-        c["out"]["I"].append([n, w])
-        c["out"]["arcs"].append([n, c["bytes"][-1][0], n + 1, w])
-        c["out"]["F"].append([n + 1, w])
+        c["out"] = {"n": 1, "I": [], "F": [], "arcs": []}
         out.append(c)
     return out
 
